@@ -232,7 +232,10 @@ def main(run):
             if t % 2 == 1:
                 r = rng.random()
                 plain = [n for n, b in tab if not b]
-                if t == 1 and pdn:
+                if t == 3:
+                    # corpus: an undefined name whose VALUE is None (or NaN) is as undefined as any other
+                    kind = "foreign"; keys[rng.choice(["raduis", "radius_bogus", "sld_pd", "len"])] = rng.choice([None, None, float("nan")])
+                elif t == 1 and pdn:
                     # corpus (every run, every model): a dispersity keyword that merely BEGINS like a known one
                     kind = "misspelt"; keys[pdn[0] + ["_pd_nsigmas", "_pd_width", "_pd_types", "_pd_npts"][len(name) % 4]] = 1.0
                 elif r < 0.35 and plain:
